@@ -970,6 +970,12 @@ def rule_J8(ctx, rule: str = "J8") -> None:
         v = p.value
         if v[0] == "a" and v[2] == "name":
             checked = any((k == ("op", "is", v, C(None)) and not val) or (k == v and val) for k, val in p.valuation.items())
+            base = v[1]
+            # a member taken out of the class's table of defined members (and found there) has a name
+            from_table = (base[0] == "call" and base[1][0] == "a" and base[1][2] == "get" and show(base[1][1]).split(".")[-1] in ("_value_map_", "_member_map_")) or \
+                         (base[0] == "sub" and show(base[1]).split(".")[-1] in ("_value_map_", "_member_map_"))
+            if from_table and (base[0] == "sub" or any((k == ("op", "is", base, C(None)) and not val) or (k == base and val) for k, val in p.valuation.items())):
+                checked = True
             if not checked:
                 bad = bad or (p, v)
     if bad:
